@@ -223,9 +223,9 @@ def iskwarg_complete():
 
 def run(tier, seed):
     chk = Check("C15", tier, seed, "other")
-    from ..kernels import c01_argfind, c14_dataflow, c15_ensure
+    from ..kernels import c01_argfind, c14_dataflow, c15_ensure, c15_split
     from ..kernels.base import run_kernel
-    for k in c01_argfind.KERNELS_C15 + c14_dataflow.KERNELS_C15 + c15_ensure.KERNELS:
+    for k in c01_argfind.KERNELS_C15 + c14_dataflow.KERNELS_C15 + c15_ensure.KERNELS + c15_split.KERNELS:
         chk.add_kernel(run_kernel(k, tier))
     n, fails = iskwarg_complete()
     chk.add_rule("C15.P.iskwarg", not fails, [f"{n} (function, name) pairs incl. functools.wraps-decorated functions sharing one code object"], fails[:3])
